@@ -69,10 +69,21 @@ package buffer
 //@   modifies vv.size, vv.views
 
 // TrimFront(count) drops the first max(count,0) bytes, or everything if there are fewer.
+//@ define sameView(a, b) = arr(a) == arr(b) && off(a) == off(b) && len(a) == len(b) && cap(a) == cap(b)
 //@ func (*VectorisedView).TrimFront props C16 C01 C08
 //@   ensures implies(old(vv.size == vsum(vv.views)), vv.size == vsum(vv.views))
 //@   ensures implies(old(vv.size == vsum(vv.views)), vv.size == imax(old(vv.size) - imax(count, 0), 0))
 //@   ensures arr(vv.views) == old(arr(vv.views)) && off(vv.views) + len(vv.views) == old(off(vv.views) + len(vv.views))
+//@   ensures implies(0 < count && old(len(vv.views)) > 0 && count < old(len(vv.views[0])), off(vv.views) == old(off(vv.views)) && len(vv.views) == old(len(vv.views))
+//@             && arr(vv.views[0]) == old(arr(vv.views[0])) && off(vv.views[0]) == old(off(vv.views[0])) + count && len(vv.views[0]) == old(len(vv.views[0])) - count
+//@             && forall(k, 1, len(vv.views), sameView(vv.views[k], old(vv.views[k]))))
+//@   ensures implies(0 < count && old(len(vv.views)) > 0 && count == old(len(vv.views[0])), off(vv.views) == old(off(vv.views)) + 1 && len(vv.views) == old(len(vv.views)) - 1
+//@             && forall(k, 0, len(vv.views), sameView(vv.views[k], old(vv.views[k + 1]))))
+//@   loop 1 invariant forall(k, 0, old(len(vv.views)), sameView(old(vv.views)[k], old(vv.views[k])))
+//@   loop 1 invariant implies(off(vv.views) == old(off(vv.views)), count == old(count) && len(vv.views) == old(len(vv.views)))
+//@   loop 1 invariant implies(off(vv.views) != old(off(vv.views)), old(len(vv.views)) > 0 && old(count) >= old(len(vv.views[0])))
+//@   loop 1 invariant implies(off(vv.views) == old(off(vv.views)) + 1, count == old(count) - old(len(vv.views[0])))
+//@   loop 1 invariant implies(off(vv.views) > old(off(vv.views)) + 1, old(count) > old(len(vv.views[0])))
 //@   loop 1 invariant implies(old(vv.size == vsum(vv.views)), vv.size == vsum(vv.views))
 //@   loop 1 invariant count <= old(count) && (count >= 0 || count == old(count))
 //@   loop 1 invariant vv.size - count == old(vv.size) - old(count)
